@@ -14,7 +14,7 @@ RULE = ("(i) port generator alone: 1..450 ranges (singletons, adjacent, overlapp
         "on/off, ARP cache with gateway on/off; multisets of probes and error records; non-trivial = at least 2 probes or a "
         "refused port list; distinct by case seed; (iv) end to end: the sx binary in a private network namespace (veth pair, "
         "packet socket as wire log): tcp subnet x ports with exclusion, tcp pairs file without -p, udp address file x ports, tcp "
-        "address list on stdin x 3 ports, tcp /31 x 400+ port ranges (3 chunks), arp, icmp")
+        "address list on stdin x 3 ports, tcp /31 x 400+ port ranges (3 chunks), arp, icmp; socks over local addresses with a listener as the log")
 
 CODES = {1: "port generator: error differs from the model", 2: "port generator: port sequence differs from the model",
          3: "port generator: channel not closed",
@@ -226,7 +226,7 @@ def run(ctx):
                 report(ctx, o, why)
     # end to end: the real engine start functions (chunk loop included) with a wire log
     if rows or not ctx.broken:
-        for idx, o in enumerate(run_e2e(ctx, 7 if quick else 70)):
+        for idx, o in enumerate(run_e2e(ctx, 8 if quick else 72)):
             cls = "e2e:" + o["class"]
             if o.get("skipped"):
                 ctx.skipped.append("e2e %s: %s" % (o["class"], o["skipped"][:200]))
